@@ -53,7 +53,7 @@ JS_NOCODE = dict(JS, disable=["code"])
 
 
 def _sharded(jobs, base, var="a", weight=1, spec=None):
-    for name, extra in shard_extras(var):
+    for name, extra in shard_extras(var, exclude=(spec or {}).get(var, {}).get("exclude", "")):
         p = dict(base)
         sp = {k: dict(v) for k, v in (spec or {}).items()}
         sp[var] = dict(sp.get(var, {}), extra=extra)
